@@ -43,6 +43,14 @@ CHECKS = {
         "outside": "symlinks and OS path semantics (os.* are effect recorders inside gosx, real files in the replay); names longer than the bound",
         "min_completed": 3,
     },
+    "C16": {
+        "groups": [
+            {"pkg": "Havoc/pkg/service", "entries": ["H_c16_service_close"]},
+        ],
+        "bounds": "service registry: 1..3 connections, 0..3 agent types and 0..3 listeners with arbitrary ownership, any one connection closing.",
+        "outside": "ExC2 endpoints registered through the teamserver (not removed on disconnect: see DESIGN.md), built-in listener registry (not built in this revision), real http.Server shutdown",
+        "min_completed": 3,
+    },
     "C11": {
         "groups": [
             {"pkg": "Havoc/cmd/server", "with": SRV_WITH, "entries": ["H_c11_append", "H_c11_replay", "H_c11_fanout", "H_c11_fault"], "no_native_witness": True, "no_native_replay": True},
@@ -115,6 +123,8 @@ LEVELS = {
             "note": "Trusted: go/ssa, gosx, z3; recorder TeamServer, os/net effect stubs; single-package command table transcribed from Command.c."},
     "C07": {"text": "Bounded symbolic execution of DownloadAdd/Write/Close and the logr writers with the real path/filepath.Clean and strings code over symbolic path components; every os call is recorded and the containment oracle re-cleans the recorded path; counterexamples are replayed on a real temp loot tree.",
             "note": "os.* = effect recorder with the documented contracts; loot root fixed; names beyond the bound outside."},
+    "C16": {"text": "Bounded symbolic execution of service.ClientClose from every small ownership configuration; position of the closing connection and ownership vectors are decided exhaustively through the engine.",
+            "note": "Only the third-party service registry is covered in this revision."},
     "C11": {"text": "Bounded symbolic execution of the real event log / replay / fan-out / SendEvent code with the websocket write as a fault-injecting recorder; the fault sequence is a symbolic variable, and a mutex left held after any send is reported by the engine's lock model.",
             "note": "websocket, JSON encoder and DB are stubs; single-threaded (interleavings of concurrent broadcasters are outside)."},
     "C06": {"text": "Bounded symbolic execution of the real handleRequest/ClientAuthenticate/EventBroadcast decision logic over an arbitrary first Package (the image of json.Unmarshal), with SHA3 as an injective digest.",
